@@ -2,7 +2,8 @@
 # usage: make FLAVOUR=plain|asan|tsan  [-j16]
 REPO ?= /repo
 FLAVOUR ?= plain
-B := build/$(FLAVOUR)
+BUILDROOT ?= build
+B := $(BUILDROOT)/$(FLAVOUR)
 SIMD ?=
 
 TL := $(REPO)/lib/texellib
